@@ -256,6 +256,18 @@ def random_plan(rng, money=False, max_base=4, max_derived=4, max_units=4,
             add(Decl("base", name=name))
             for j in range(rng.randint(2, 3)):
                 add(Decl("plain", t=name, sym="%s%d" % (L, j)))
+    if force_quantum and rng.random() < 0.6:
+        # the inverse of a quantized type: number / unit of it lands in the
+        # quantized type
+        qt = [t for t in w.types.values() if t.quantum is not None]
+        if qt:
+            name = names[-1]
+            L = "abcdefghijklmnopqrstuvwxyz"[len(tletter)]
+            if add(Decl("derived", name=name, items=[(qt[0].name, -1)],
+                        ref=L + "0", form=rng.choice(["ops", "term"]))):
+                names.pop()
+                tletter[name] = L
+                next(letters)
     for _ in range(rng.randint(1, max_derived)):
         for _try in range(6):
             tn = list(w.types)
